@@ -74,8 +74,9 @@ _LEDGER_ASSUMPTIONS = [
     "network) are drawn per run and shared by all nodes; only node-local settings differ between nodes",
     "within one driver event the node's own goroutines run to quiescence on one P; their relative order is not chosen by the tape",
     "Go map iteration order inside neo-go is not controlled; oracles are order-insensitive",
-    "a flush running concurrently with AddBlock is two real goroutines released one at a time at the write cache's lock sites "
-    "(build-tag hook storage.VerifLockYield); between two yields a goroutine runs alone",
+    "a flush running concurrently with AddBlock, and a second AddBlock of the same block, are real goroutines released one at a time at the "
+    "write cache's lock sites (build-tag hook storage.VerifLockYield); between two yields a goroutine runs alone; a goroutine waiting for a "
+    "mutex of the ledger is recognised from the goroutine dump",
 ]
 _LEDGER_RULE = ("one run = a rapid-drawn history (bootstrap funding block, optional election blocks, then 2-24 (thorough: 2-60) "
                 "blocks of 0-5 operations each out of 16 kinds: GAS/NEO transfers incl. self/zero/to contracts, votes, candidate "
@@ -91,7 +92,9 @@ _LEDGER_RULE = ("one run = a rapid-drawn history (bootstrap funding block, optio
                 "AddBlock and placed inside storeBlock by the lock-yield scheduler), clean restarts at "
                 "drawn heights, and fake-clock ticks that fire the real persist timer and GC of every node; one run in five appends 14-30 "
                 "empty blocks with MaxTraceableBlocks 8/12/20 and a pruning replica so that header hash pages (16 headers under the verif "
-                "build tag) are crossed; helper contract manifests express their permissions in three different ways. ")
+                "build tag) are crossed (one in four of those with a traceable window of 34-44 blocks on a chain of 100+ blocks and native Ledger reads "
+                "by index and hash along the way); one block in ten reaches a replica from two callers at once (the first parked inside AddBlock at a "
+                "lock yield, the second run up to the add lock); helper contract manifests express their permissions in three different ways. ")
 
 REGISTRY["C01"] = {
     "engine": "ledger",
@@ -113,7 +116,8 @@ REGISTRY["C01"] = {
                "preloaded_tx", "tx_fault", "tx_halt", "validator_set_change", "election_block", "contract_deployed",
                "contract_updated", "contract_destroyed", "tx_rejected_by_pool",
                "op_oracleRequest", "op_oracleResponse", "oracle_response_halt", "oracle_response_fault",
-               "oracle_response_unknown_id_rejected", "oracle_nodes_designated", "oracle_request_removed_after_response"],
+               "oracle_response_unknown_id_rejected", "oracle_nodes_designated", "oracle_request_removed_after_response",
+               "same_block_from_two_sources_overlapping", "second_source_waited_for_the_add_lock", "op_ledgerRead"],
     "components": _LEDGER_COMPONENTS,
     "assumptions": _LEDGER_ASSUMPTIONS,
 }
@@ -121,7 +125,9 @@ REGISTRY["C05"] = dict(REGISTRY["C01"], **{
     "level_text": ("the same replicated-ledger simulation with an arithmetic monitor after every block on the producer and after every "
                    "restart on replicas: NEO supply = 100000000 = sum of balances, GAS supply = sum of balances, candidate votes and "
                    "voters count recomputed from raw account records, Notary GAS = sum of deposits, no negative balance, per-account "
-                   "balance delta = net Transfer events of HALTed executions (OnPersist/PostPersist included)"),
+                   "balance delta = net Transfer events of HALTed executions (OnPersist/PostPersist included); GAS supply <= initial supply + the stored "
+                   "GAS-per-block values summed over the heights (every other mint follows a burn); an account changed by block h carries as voter "
+                   "reward checkpoint the cumulative record of the key it votes for now as it stood after block h-1"),
     "level_note": "trusted: storage decoders of pkg/core/state used by the monitor; GAS sent to the Notary hash before the contract's activation hard fork is not generated (no contract exists to record a deposit)",
     "design_ref": "DESIGN.md section 2, C05",
     "technique": "deterministic simulation: conservation invariants monitored over seeded histories with restarts (caches rebuilt from storage)",
@@ -129,13 +135,17 @@ REGISTRY["C05"] = dict(REGISTRY["C01"], **{
             "Non-trivial/distinct as for C01.",
     "probes": ["delta_checked_blocks", "candidate_with_votes", "voters_present", "notary_deposit_present", "clean_restart",
                "validator_set_change", "election_block", "tx_fault", "op_vote", "op_register", "op_unregister", "op_notary", "op_payContract",
-               "op_oracleRequest", "op_oracleResponse", "oracle_response_halt", "oracle_response_fault", "oracle_reward_as_modelled"],
+               "op_oracleRequest", "op_oracleResponse", "oracle_response_halt", "oracle_response_fault", "oracle_reward_as_modelled",
+               "gas_issuance_bound_checked", "voter_reward_checkpoint_checked_nonzero"],
 })
 REGISTRY["C03"] = dict(REGISTRY["C01"], **{
     "level_text": ("the same replicated-ledger simulation; the harness keeps per height the flat storage map read from the producer's "
                    "live store and compares, at tape-chosen later moments and on differently configured nodes, full SeekStates "
                    "enumeration, paged FindStates, GetState of present and absent keys, proofs (valid, tampered, for absent keys) "
-                   "and a battery of read-only historic invocations against it"),
+                   "and a battery of read-only historic invocations against it; one verification in two asks the same questions through the "
+                   "RPC server's handlers (an rpcsrv.Server per node, never started, called in process through RegisterLocal): getstoragehistoric, "
+                   "getstate, getproof + verifyproof, absent neighbours, findstoragehistoric and findstates page by page (pages of 1-3) with the "
+                   "first/last proofs verified"),
     "level_note": "trusted: flat map taken through Blockchain.SeekStorage on the producer; historic invocations only on archival nodes; battery scripts read state only",
     "design_ref": "DESIGN.md section 2, C03",
     "technique": "deterministic simulation: per-height reference map vs trie reads/proofs/historic VM under seeded flush, restart and GC schedules",
@@ -143,6 +153,8 @@ REGISTRY["C03"] = dict(REGISTRY["C01"], **{
             "Non-trivial/distinct as for C01.",
     "probes": ["c03_roots_verified", "c03_old_root_verified", "c03_paged_find", "c03_proofs_verified", "c03_tampered_proofs",
                "c03_absent_keys", "c03_historic_invocations", "c03_unretained_root_fails_cleanly", "c03_unretained_root_still_right",
+               "c03_rpc_point_reads", "c03_rpc_absent_reads", "c03_rpc_empty_value_read", "c03_rpc_findstorage_sequences", "c03_rpc_findstates_sequences",
+               "c03_rpc_findstates_proofs",
                "clean_restart", "forced_flush", "timer_flush_tick"],
 })
 
@@ -162,14 +174,15 @@ REGISTRY["C02"] = dict(REGISTRY["C01"], **{
     "rule": _LEDGER_RULE + "C02: one victim replica; one run in four extends the history by 18-30 empty blocks with MaxTraceableBlocks 8 and a pruning victim, so that "
             "header hash pages (16 headers under the verif build tag) and their garbage collection are among the crash points; headers may arrive ahead of blocks; flushes forced per block or tape-chosen, with GC, "
             "with injected disk-full errors; oracle per crash point: NewBlockchain succeeds, height within [durably flushed, last accepted], "
-            "observation == reference at that height, remaining blocks accepted with identical state roots and final observation; reset: "
+            "observation == reference at that height, remaining blocks accepted with identical state roots and final observation, and (every other "
+            "crash point) a clean stop and another start after catching up open the database again with the same observation; reset: "
             "completed reset is observationally a fresh node synchronised to the target (heights, tip hash, blocks/txs/AERs retrievable, "
             "transfer logs, next blocks), every crash point of the reset reopens at the old or the target height and a resumed reset ends "
             "in the same raw database content (TokenTransferInfo compared decoded: its encoding iterates a Go map). "
             "Non-trivial = at least one crash point examined; distinct = distinct event-log hash.",
     "probes": ["crash_at_batch_boundary", "crash_during_reset", "disk_full_on_flush", "state_reset", "forced_flush", "timer_flush_tick",
                "gc_batches", "batches", "all_crash_points_enumerated", "crash_lost_unflushed_blocks", "headers_ahead_of_blocks",
-               "reset_crash_before_marker", "reset_resumed", "reset_equivalence_checked", "reset_refused",
+               "reset_crash_before_marker", "reset_resumed", "reset_equivalence_checked", "reset_refused", "crash_resume_then_clean_restart",
                "backend_boltdb", "backend_leveldb", "backend_memory"],
 })
 
@@ -182,7 +195,8 @@ REGISTRY["C06"] = dict(REGISTRY["C01"], **{
                    "delivers a validly signed block carrying a transaction named by on-chain Conflicts attributes (victim pooled at the "
                    "verifying node or unknown to it, named by its sender or only by its co-signer, or named twice with the older namer "
                    "just untraceable), and one in three offers a forged header batch (known index with another NextConsensus, child "
-                   "signed by that key) through AddHeaders; chain states are sampled, the catalogue is enumerated by the plan generator"),
+                   "signed by that key) through AddHeaders; one correct block in six reaches the victim from two callers at once (one applies it, "
+                   "the copy is refused and changes nothing); chain states are sampled, the catalogue is enumerated by the plan generator"),
     "level_note": ("trusted: corruption builders in ledger/c06.go. Only the conditions the statement lists are demanded: re-signed "
                    "variants of fields the statement does not mention (version, nonce, primary, next consensus, dropped/reordered "
                    "transactions with a rebuilt Merkle root) are valid different blocks and are not generated. When the corrupted "
@@ -199,7 +213,8 @@ REGISTRY["C06"] = dict(REGISTRY["C01"], **{
                 "tx-expired", "tx-onchain", "tx-underfunded", "tx-drop-keep-merkle", "tx-reorder-keep-merkle", "truncated", "trailing",
                 "nonminimal-count", "tx-named-by-onchain-conflicts", "tx-signed-by-blocked-account"]] + ["blocked_attack_delivered", "conflict_attack_delivered", "conflict_attack_victim_pooled",
                "conflict_attack_named_by_cosigner", "conflict_attack_two_namers", "forged_header_batch", "valid_header_of_rejected_block_recorded", "genuine_header_recorded_before_body",
-               "equivocating_header_recorded", "lenient_decoding_accepted_identical_block", "corruption_keeps_genuine_header"],
+               "equivocating_header_recorded", "lenient_decoding_accepted_identical_block", "corruption_keeps_genuine_header",
+               "same_block_from_two_sources_overlapping", "second_source_waited_for_the_add_lock"],
 })
 REGISTRY["C04"] = dict(REGISTRY["C01"], **{
     "level": "fault_enumeration",
@@ -281,13 +296,15 @@ REGISTRY["C07"] = dict(REGISTRY["C19"], **{
                    "never pooled by any node and never on chain; (2) for signature and 3-of-4 multi-signature witnesses the calculator's network fee is accepted "
                    "by the full admission pipeline and one unit less is rejected (fresh scratch pool); (3) every block a primary proposes from its real pool, and "
                    "a block the harness packs from a validator's pool in pool order under per-run limits at the end, is accepted by every ledger after "
-                   "encode -> bytes -> decode"),
+                   "encode -> bytes -> decode, and each of its transactions passes a from-scratch verification against the packing validator's own ledger "
+                   "(fresh pool, Blockchain.PoolTx: what a backup that does not hold it performs); one plan in three raises FeePerByte or the execution fee "
+                   "factor by a committee transaction while five exact-fee transfers wait in the pools at two transactions per block"),
     "level_note": "the input-quantified half of the statement (every accepted encoding, all sizes and attribute mixes) is only sampled by the workload generator; simulation adds wire round trip, differing pools, evolving state, restarts",
     "design_ref": "DESIGN.md section 2, C07",
     "technique": "deterministic simulation: admission soundness, fee threshold and proposability oracles inside a simulated 4-validator network with differing mempools",
     "rule": _NET_RULE + "C07: 4-16 client transactions, one third of them with exactly one defect; MaxTransactionsPerBlock drawn 0(default)-3. Non-trivial/distinct as for C19.",
     "probes": ["client_tx", "tx_pooled", "tx_not_pooled", "fee_threshold_checked/signature", "fee_threshold_checked/multisig", "block_packed_from_pool", "packed_txs",
-               "tx_request_answered", "blocks_committed"] + ["defective_tx/" + d for d in ["expired", "valid-until-too-far", "already-on-chain", "bad-witness",
+               "tx_request_answered", "blocks_committed", "packed_txs_verified_from_scratch"] + ["defective_tx/" + d for d in ["expired", "valid-until-too-far", "already-on-chain", "bad-witness",
                "fee-one-short", "highpriority-without-committee", "notvalidbefore-in-future", "sender-cannot-pay", "cosigned-by-blocked-account"]],
 })
 REGISTRY["C17"] = dict(REGISTRY["C19"], **{
